@@ -11,10 +11,13 @@ offsets from `begin()`.  The comparator is a parameter `lt : α → α → Bool`
 Every element read goes through `rd`, every element write through `wr` (both checked), so an
 access outside `[begin,end)` is `.error .oob`; a violated `TETL_PRECONDITION` of `static_vector`
 is `.error (.pre _)`.  Each definition follows the statement structure of the C++ member of the
-same name *as it is after the `fix:` commits of branches fix-c09 and fix-c09b* (see known_findings.d/C09.json).
+same name *as it is after the `fix:` commits of branches fix-c09, fix-c09b and fix-c09x* (see known_findings.d/C09.json).
+The algorithms that C06 already models (`remove_if`, `equal`, `lexicographical_compare`, `sort`) are used through their C06
+models (Tetl/C06/Model/*.lean); the members of `etl::inplace_vector` through their C01 models (Tetl/C01/Model.lean).
 -/
 import Tetl.Common
 import Tetl.C06.Model.Sort
+import Tetl.C01.Model
 namespace Tetl.C09
 
 variable {α κ : Type}
@@ -280,7 +283,9 @@ def fsEmplace (lt : α → α → Bool) (cap : Nat) (l : List α) (v : α) : Exc
       .ok (l', .inserted it)
   else .ok (l, .exists_ p)
 
-/-- `flat_set::insert(first, last)`: `while (first != last) { insert(*first); ++first; }` -/
+/-- `flat_set::insert(first, last)`: `while (first != last) { insert(*first); ++first; }`; also
+    `flat_set::insert(sorted_unique, first, last)` = `insert(first, last)` (defined by the `fix:` of
+    F-C09-fs-insert-sorted-unique-undefined; it was declared only) -/
 def fsInsertRange (lt : α → α → Bool) (cap : Nat) : List α → List α → Except Err (List α)
   | l, [] => .ok l
   | l, v :: vs => do
@@ -324,6 +329,12 @@ def miniCtor (cap : Nat) (src : List α) : Except Err (List α) :=
   if src.length > cap then .error (.pre "mini_vec::emplace: !full()") else .ok src
 
 def miniClear (_l : List α) : List α := []
+
+/-- `flat_multiset(KeyContainer cont)` over the inplace-vector-like container: memberwise moves of the container, then `etl::sort` -/
+def fiMsetCtor (lt : α → α → Bool) (cap : Nat) (c : List α) : Except Err (List α) :=
+  match miniCtor cap c with
+  | .error e => .error e
+  | .ok l => Tetl.C06.sort lt l 0 l.length
 
 /-! ### static_set / flat_set: the members that only forward to the container -/
 
@@ -584,5 +595,121 @@ def run (kind : Kind) (lt : α → α → Bool) (h : Het α κ) (cap : Nat) :
     let (s1, o) ← step kind lt h cap s op
     let (s2, os) ← run kind lt h cap s1 ops
     .ok (s2, o :: os)
+
+/-! ### erase_if, relational operators, size observers — and histories extended by them
+
+The operations and results of `Op` / `Out` / `step` / `run` above are kept as they are (property C02 consumes them); the three
+additions are a layer on top: `XOp` = an `Op` or one of `erase_if(pred)` / the six relational operators against the other live
+set / the size observers; `xstep` / `xrun` run histories in which all of them are interleaved. -/
+
+inductive XOp (α κ : Type) where
+  | base (op : Op α κ)
+  | eraseIf (p : α → Bool)      -- `etl::erase_if(cur, pred)`; result `.base (.num erased)`
+  | cmp                         -- `cur == other`, `!=`, `<`, `<=`, `>`, `>=`
+  | sizes                       -- `size()`, `empty()`, `full()` (static_set), `max_size()`
+
+inductive XOut (α : Type) where
+  | base (o : Out α)
+  | bools (bs : List Bool)
+  | sizes (size : Nat) (empty : Bool) (full : Option Bool) (maxSize : Nat)
+  deriving Repr, DecidableEq
+
+/-- `erase_if(set, pred)` — `static_set` (added by the `fix:` of F-C09-ss-erase-if-missing) and `flat_set`, the same statements:
+    `it = etl::remove_if(c.begin(), c.end(), pred)` (the C06 model of `_algorithm/remove_if.hpp`);
+    `r = distance(it, c.end())`; `c.erase(it, c.end())` (the container's range erase); `return r` -/
+def setEraseIf (kind : Kind) (p : α → Bool) (l : List α) : Except Err (List α × Nat) := do
+  let (a, it) ← Tetl.C06.removeIf p l 0 l.length
+  let r := a.length - it
+  let (l', _) ← (match kind with
+    | .fi => miniErase a it a.length
+    | _ => svErase a it a.length)
+  .ok (l', r)
+
+/-- `operator==` and `operator<` of the ELEMENT type: what `etl::equal` / `etl::lexicographical_compare` called without a
+    comparator use.  They are unrelated to the comparator of the set ("this comparison ignores the set's ordering"). -/
+structure Elem (α : Type) where
+  eq : α → α → Bool
+  lt : α → α → Bool
+
+/-- `operator==`.  static_set: `lhs.size() == rhs.size() && equal(begin(lhs), end(lhs), begin(rhs))` (3-iterator `etl::equal`);
+    flat_set: `etl::equal(lhs.begin(), lhs.end(), rhs.begin(), rhs.end())` (4-iterator, random-access branch: the two
+    distances are compared first).  Both through the C06 models of `_algorithm/equal.hpp`. -/
+def setEq (kind : Kind) (e : Elem α) (a b : List α) : Except Err Bool :=
+  match kind with
+  | .ss => if a.length == b.length then Tetl.C06.equal3 e.eq a 0 a.length b 0 b.length else .ok false
+  | _ => Tetl.C06.equal4RA e.eq a 0 a.length b 0 b.length
+
+/-- `operator<` = `etl::lexicographical_compare(begin(lhs), end(lhs), begin(rhs), end(rhs))` (C06 model) -/
+def setLt (e : Elem α) (a b : List α) : Except Err Bool :=
+  Tetl.C06.lexicographicalCompare e.lt a 0 a.length b 0 b.length
+
+/-- the six operators as the code derives them, each evaluated on its own: `==`; `!=` = `!(lhs == rhs)` (static_set: written
+    out; flat_set: rewritten from `==` by the language); `<`; `<=` = `!(rhs < lhs)`; `>` = `rhs < lhs`; `>=` = `!(lhs < rhs)` -/
+def relOps (kind : Kind) (e : Elem α) (a b : List α) : Except Err (List Bool) := do
+  let eq ← setEq kind e a b
+  let ne ← setEq kind e a b
+  let lt ← setLt e a b
+  let le ← setLt e b a
+  let gt ← setLt e b a
+  let ge ← setLt e a b
+  .ok [eq, !ne, lt, !le, gt, !ge]
+
+/-- `size()` = container `size()`; `empty()` = container `empty()` = `size() == 0`; `full()` (static_set only) =
+    `static_vector::full()` = `size() == Capacity`; `max_size()` = container `max_size()` = `Capacity` -/
+def setSizes (kind : Kind) (cap : Nat) (l : List α) : XOut α :=
+  .sizes l.length (l.length == 0) (match kind with | .ss => some (l.length == cap) | _ => none) cap
+
+/-- one step of an extended history: an operation of `Op` (through `step`), or one of the three additions -/
+def xstep (kind : Kind) (lt : α → α → Bool) (h : Het α κ) (e : Elem α) (cap : Nat) (s : St α) :
+    XOp α κ → Except Err (St α × XOut α)
+  | .base op => do
+    let (s', o) ← step kind lt h cap s op
+    .ok (s', .base o)
+  | .eraseIf p => do
+    let (l, n) ← setEraseIf kind p s.cur
+    .ok ({ s with cur := l }, .base (.num n))
+  | .cmp => do .ok (s, .bools (← relOps kind e s.cur s.other))
+  | .sizes => .ok (s, setSizes kind cap s.cur)
+
+/-- a whole extended history: the outputs in order and the final state -/
+def xrun (kind : Kind) (lt : α → α → Bool) (h : Het α κ) (e : Elem α) (cap : Nat) :
+    St α → List (XOp α κ) → Except Err (St α × List (XOut α))
+  | s, [] => .ok (s, [])
+  | s, op :: ops => do
+    let (s1, o) ← xstep kind lt h e cap s op
+    let (s2, os) ← xrun kind lt h e cap s1 ops
+    .ok (s2, o :: os)
+
+
+
+/-! ### flat_set / flat_multiset over `etl::inplace_vector` (elements `Nat`: the C01 model of inplace_vector, Tetl/C01/Model.lean)
+
+`etl::inplace_vector` has no `emplace(pos, x)`, `erase`, range constructor, assignment or `rbegin()`; the members of
+`flat_set<Key, inplace_vector<Key, N>>` that need them do not compile.  What compiles: the `sorted_unique` container
+constructor, every lookup, `clear()`, `extract()`, `size()/empty()/max_size()`, the relational operators (all of which only
+use `begin()/end()/size()/max_size()` of the container and are the `.fs` definitions above), and `flat_multiset(container)`.
+The element type of the harness is `int` (trivially copyable: `Tetl.C01.Kind.triv`). -/
+
+/-- `flat_set(sorted_unique, container_type cont)` : `_container{etl::move(cont)}` — the by-value parameter is move-constructed
+    from the caller's container, the member from the parameter: two `inplace_vector(inplace_vector&&)` -/
+def fvCtor (cap : Nat) (c : List Nat) : Except Err (List Nat) := do
+  let (param, _) ← Tetl.C01.ipvMoveCtor cap .triv c
+  let (member, _) ← Tetl.C01.ipvMoveCtor cap .triv param
+  .ok member
+
+/-- `flat_set::clear()` = `_container.clear()` = `inplace_vector::clear()` -/
+def fvClear (cap : Nat) (l : List Nat) : Except Err (List Nat) := Tetl.C01.ipvClear cap l
+
+/-- `flat_set::extract() &&`: `auto container = etl::move(_container); clear(); return container;`
+    returns (the set afterwards, the returned container) -/
+def fvExtract (cap : Nat) (l : List Nat) : Except Err (List Nat × List Nat) := do
+  let (c, l1) ← Tetl.C01.ipvMoveCtor cap .triv l
+  let l2 ← Tetl.C01.ipvClear cap l1
+  .ok (l2, c)
+
+/-- `flat_multiset(KeyContainer cont)` over `inplace_vector`: the two container moves, then `etl::sort` (gnome sort, C06 model) -/
+def fvMsetCtor (lt : Nat → Nat → Bool) (cap : Nat) (c : List Nat) : Except Err (List Nat) := do
+  let l ← fvCtor cap c
+  Tetl.C06.sort lt l 0 l.length
 
 end Tetl.C09
